@@ -141,7 +141,7 @@ def corpus(tier):
     return items + foreign, missing
 
 
-IN_PROCESS = ["string", "render_unicode", "render_context", "get_def", "file", "moddir", "moduletemplate", "uri-spellings", "modulename_callable"]
+IN_PROCESS = ["string", "render_unicode", "render_context", "get_def", "file", "moddir", "moduletemplate", "uri-spellings", "modulename_callable", "out-enc"]
 
 
 def plan(tier, seed):
@@ -270,6 +270,12 @@ def judge(it, res, st):
             st.evaluations += 1
             if got != base:
                 bad("uri-spelling", "the URI spelling does not change the template", base, "%r -> %s" % (sp, got))
+    if "out-enc" in r0 and base.startswith("OUT:"):
+        for enc, got in r0["out-enc"]["renders"].items():
+            st.evaluations += 1
+            st.oracles["out-enc"] += 1
+            if got != "OUT:same":
+                bad("path:render-bytes:%s" % enc, "render() is render_unicode() encoded once with output_encoding", "render_unicode().encode(%s)" % enc, got)
     if "get_def" in r0 and "get_def_file" in r0:
         st.oracles["get_def"] += 1
         if r0["get_def"]["defs"] != r0["get_def_file"]["defs"]:
